@@ -267,7 +267,7 @@ def main(tier, seed):
                         for form in ("absolute", "relative"):
                             cases.append({"name": name, "base": tree, "pats": pats, "muts": ms, "cmd": "verify-sf", "sf": f, "sf_form": form})
                 if len(ms) <= 1 and name in ("flat1", "nested1", "ignore-negated-anchored", "hidden-twins"):
-                    for sp in ("slash", "slashdot", "dot", "rel", "symlink"):
+                    for sp in ("slash", "slashdot", "dot", "rel", "symlink", "dotdot", "slashslash"):
                         cases.append({"name": name, "base": tree, "pats": pats, "muts": ms, "cmd": cmd, "spell": sp})
                     cases.append({"name": name, "base": tree, "pats": pats, "muts": ms, "cmd": cmd, "v": True})
     res = eng.pmap(work, cases)
